@@ -563,7 +563,7 @@ static void dump_eval(const Case &c, unsigned mask, Result &R, Acc &A) {
   if (nested)
     ++A.nontrivial;
   const std::string rep = case_json("dump", c, (int)mask);
-  std::vector< Val > v1(c.keys.size()), v2(c.keys.size());
+  std::vector< Val > v1(c.keys.size()), v1b(c.keys.size()), v2(c.keys.size());
   std::string dump1, dump2, what;
   Dict used1, used2, dict2, dict3;
   int stage = 0;
@@ -581,6 +581,11 @@ static void dump_eval(const Case &c, unsigned mask, Result &R, Acc &A) {
     for (size_t i = 0; i < c.keys.size(); ++i)
       v1[i] = query(pf1, keystr(c.keys[i]), c.kinds[i], !(mask & (1u << i)),
                     value_text(c.kinds[i], c.pos[i]));
+    // second request of every key on the same object (components share parameters): same answer, and the
+    // used-values dump taken afterwards must still reproduce the values
+    for (size_t i = 0; i < c.keys.size(); ++i)
+      v1b[i] = query(pf1, keystr(c.keys[i]), c.kinds[i], !(mask & (1u << i)),
+                     value_text(c.kinds[i], c.pos[i]));
     stage = 2;
     std::ostringstream o1;
     pf1.print_contents(o1);
@@ -636,6 +641,12 @@ static void dump_eval(const Case &c, unsigned mask, Result &R, Acc &A) {
   }
   for (size_t i = 0; i < c.keys.size(); ++i) {
     const Val &ref = g_ref[c.kinds[i]][c.pos[i]];
+    if (!same_exact(v1b[i], v1[i]))
+      R.violation(std::string("C20:dump:second-request-differs:") + KINDS[c.kinds[i]].name +
+                      ((mask & (1u << i)) ? ":present" : ":defaulted"),
+                  "key " + keystr(c.keys[i]) + " requested twice from the same ParameterFile gives two different values (" +
+                      val_str(v1[i]) + " then " + val_str(v1b[i]) + "); file:\n" + text,
+                  rep);
     if (!same_exact(v1[i], ref))
       R.violation(std::string("C20:dump:value-depends-on-tree:") + KINDS[c.kinds[i]].name,
                   "key " + keystr(c.keys[i]) + " returns " + val_str(v1[i]) + " but the same text as a single flat key gives " +
